@@ -5,6 +5,7 @@ import (
 	"strings"
 	"time"
 
+	"github.com/remieven/ysgo/variable"
 	"github.com/remieven/ysgo/verifx/internal/explore"
 	"github.com/remieven/ysgo/verifx/internal/report"
 	yc "github.com/remieven/ysgo/verifx/internal/yarncore"
@@ -15,11 +16,11 @@ func init() {
 		Meta: report.Meta{
 			Property: "C17",
 			Rule: "every command <<name w1 .. wk>>, k<=3 (quick: full word alphabet for k<=2, reduced for k=3), names from {foo, iffy, settings, jumpy, callous, declared, localhost, enumerate, caseload, stopper, elsewhere, elseifx, endiffy, é, x1, stop}, " +
-				"words from {abc, é, true, false, 1, 007, -2, 3.5, -0.5, +3, inf, nan, Infinity, 0x10, True, {1+1}, {\"s t\"}, {true}, {$v}}, separators from {one space, three spaces, tab, leading / trailing space}; " +
-				"handlers registered with raw AddCommand record their typed arguments; each name also unregistered, and a handler registered under \"stop\"; oracle: exactly one invocation of the handler of name with the typed list the property prescribes; " +
+				"words from {abc, é, true, false, 1, 007, -2, 3.5, -0.5, +3, inf, nan, Infinity, 0x10, True, 1., .5, -, 1.2.3, {1+1}, {\"s t\"}, {true}, {$v}}, separators from {one space, three spaces, tab, leading / trailing space}; " +
+				"handlers registered with raw AddCommand record their typed arguments; each name also unregistered, and a handler registered under \"stop\"; sequences of 2-3 commands (registered and unregistered ones) in one dialogue; oracle: exactly one invocation of the handler of name with the typed list the property prescribes; " +
 				"a case is one command statement in one host configuration; non-trivial = at least one argument or a keyword-prefixed name",
 			StatesMean:  "distinct (command statement, host configuration) cases; transitions = real Next calls",
-			Assumptions: []string{"words whose status as decimal literal is debatable (1e3, .5, 5.) are not generated", "a word directly adjacent to an inline expression is not generated"},
+			Assumptions: []string{"a decimal literal is what the language's grammar calls a number (digits, optionally a dot and digits), optionally negative: 1. and .5 are words; 1e3 is not generated", "a word directly adjacent to an inline expression is not generated", "sequences: after the error of an unregistered command the dialogue continues with the following statement"},
 		},
 		QuickBudget: 70 * time.Second, ThoroughBudget: 12 * time.Minute, CrashIsViolation: true,
 		Run: runC17,
@@ -33,9 +34,9 @@ func runC17(ctx *report.Ctx) {
 		e *yc.Expr
 	}
 	words := []word{{w: "abc"}, {w: "é"}, {w: "true"}, {w: "false"}, {w: "1"}, {w: "007"}, {w: "-2"}, {w: "3.5"}, {w: "-0.5"}, {w: "+3"},
-		{w: "inf"}, {w: "nan"}, {w: "Infinity"}, {w: "0x10"}, {w: "True"},
+		{w: "inf"}, {w: "nan"}, {w: "Infinity"}, {w: "0x10"}, {w: "True"}, {w: "1."}, {w: ".5"}, {w: "-"}, {w: "1.2.3"},
 		{e: yc.EBinary("+", yc.ENumber(1), yc.ENumber(1))}, {e: yc.EString("s t")}, {e: yc.EBoolean(true)}, {e: yc.EVariable("v")}}
-	reduced := []word{words[0], words[2], words[4], words[6], words[10], words[15], words[16]}
+	reduced := []word{words[0], words[2], words[4], words[6], words[10], words[15], words[19], words[20]}
 	seps := []string{" ", "   ", "\t", " \t "}
 	var cmds []yc.CmdSpec
 	for _, n := range names {
@@ -43,14 +44,38 @@ func runC17(ctx *report.Ctx) {
 	}
 	hostAll := &yc.HostSpec{Cmds: cmds, Vars: map[string]yc.Value{"v": yc.Num(9)}}
 	hostNone := &yc.HostSpec{Vars: map[string]yc.Value{"v": yc.Num(9)}}
+	// sequences: two or three commands one after the other in one dialogue (registered, unregistered, stop)
+	seqCmds := []*yc.Stmt{yc.Command("foo", yc.CmdArg{Word: "1"}), yc.Command("nocmd"), yc.Command("othernocmd", yc.CmdArg{Word: "2"}), yc.Command("iffy", yc.CmdArg{E: yc.EVariable("v")}), yc.Command("é")}
+	part(ctx, "sequences", -1, func(c *explore.Chooser) {
+		n := 2 + c.Choose(2, "len")
+		var body []*yc.Stmt
+		for i := 0; i < n; i++ {
+			body = append(body, seqCmds[c.Choose(len(seqCmds), "cmd")], yc.Line(fmt.Sprintf("after%d", i)))
+		}
+		if !c.Mine() {
+			return
+		}
+		p := &yc.Program{Nodes: []*yc.Node{{Title: "A", Body: body}}}
+		hs := &yc.HostSpec{Cmds: []yc.CmdSpec{{Name: "foo"}, {Name: "iffy"}, {Name: "é"}}, Vars: map[string]yc.Value{"v": yc.Num(9)}}
+		srcs := yc.Render(p, nil)
+		ctx.Current("sequences: " + srcs[0])
+		// errors do not end the comparison here: after an unknown command the dialogue goes on with the next statement
+		mm, wst := walkThroughErrors(p, srcs, hs, 3*n+2)
+		ctx.AddEvals(1, 1)
+		ctx.AddStates(1)
+		ctx.AddTransitions(wst)
+		ctx.AddTraces(1)
+		if mm != "" {
+			ctx.Violation(report.Violation{Clause: "command-sequence", Witness: "cmds:" + strings.ReplaceAll(srcs[0], "\n", " / "), Detail: mm, Choices: c.Choices(), Part: "sequences", Extra: map[string]any{"scripts": srcs}})
+		}
+	})
 	maxK := 3
 	part(ctx, "commands", -1, func(c *explore.Chooser) {
 		name := names[c.Choose(len(names), "name")]
 		k := c.Choose(maxK+1, "nargs")
 		alphabet := words
 		if k == 3 || (k == 2 && false) {
-			alphabet = report.Pick(ctx, words, words)
-			_ = reduced
+			alphabet = report.Pick(ctx, reduced, words)
 		}
 		st := &yc.Stmt{K: yc.SCommand, Cmd: name}
 		for i := 0; i < k; i++ {
@@ -99,4 +124,41 @@ func runC17(ctx *report.Ctx) {
 			ctx.Sample(map[string]any{"command": cmdSrc, "host": cfg, "expected_invocations": m.Log})
 		}
 	})
+}
+
+// walkThroughErrors steps the real runner and the model in lock-step and keeps going after errors:
+// "an unregistered name is an error" - and the commands that follow must still reach their handlers.
+func walkThroughErrors(p *yc.Program, srcs []string, hs *yc.HostSpec, maxSteps int) (string, int64) {
+	m := yc.NewMachine(p, hs.Model())
+	st := variable.NewInMemoryStorer()
+	for k, v := range hs.Vars {
+		if v.K == yc.VNum {
+			st.SetNumberValue(k, v.N)
+		}
+	}
+	r, err, pan := yc.NewReal(srcs, "abc", st)
+	if err != nil || pan != "" {
+		return fmt.Sprintf("script does not load: %v %s", err, pan), 0
+	}
+	var rlog []string
+	hs.Install(r.DR, &rlog)
+	mo := m.Start()
+	var trace []string
+	steps := int64(0)
+	for i := 0; i < maxSteps; i++ {
+		ro := r.Next(0)
+		steps++
+		trace = append(trace, ro.String())
+		if d := yc.Diff(mo, ro, yc.Flags{}); d != "" {
+			return fmt.Sprintf("step %d: %s; observed %v", i, d, trace), steps
+		}
+		if a, b := strings.Join(m.Log, ";"), strings.Join(rlog, ";"); a != b {
+			return fmt.Sprintf("step %d: handler invocations expected [%s], got [%s]", i, a, b), steps
+		}
+		if mo.K == yc.OEnd {
+			break
+		}
+		mo = mo.Next(0)
+	}
+	return "", steps
 }
